@@ -18,7 +18,8 @@ RULE = ("(i) frame monitor around every call: __setattr__/__delattr__ tap on the
         "model object between entry and exit), model.__dict__ snapshots (openskill.* module globals are snapshotted too, informational); (ii)/(iii) "
         "history-free oracle: sequences of 5-50 mixed rate/predict calls with random per-call tau/limit_sigma on one "
         "long-lived model, every call re-run on a fresh identically constructed model with fresh rating objects and "
-        "compared bit for bit, with ids overwritten (sorted/reversed/equal strings), names permuted; plus feedback "
+        "compared bit for bit, with outcome lists REUSED as the same list object between calls of a sequence (the oracle gets "
+        "a fresh list of the original values), ids overwritten (sorted/reversed/equal strings), names permuted; plus feedback "
         "sequences in which the SAME rating objects are rated again and again (10-120 steps) and every call is compared with "
         "the history-free result for the values the objects held before it; (iv) the same seeded "
         "workload run in subprocesses under several PYTHONHASHSEED values, SHA-256 digests of all returned floats "
@@ -51,13 +52,19 @@ def floors(tier):
 # ------------------------------------------------------------------------------------------- workload
 def gen_ops(rng, cfg, nops, kmax=5, pmax=3):
     ops = []
+    pool = {}
     for _ in range(nops):
         teams, regime = gen.gen_teams(rng, cfg["beta"], kmax=kmax, pmax=pmax,
                                       regime=rng.choice(["typical", "wide", "mismatch", "equal_size", "huge_sigma"]))
         r = rng.random()
         if r < 0.6:
-            lv = gen.weak_order(rng, len(teams))
-            sel, vals, _ = gen.outcome_kwargs(rng, lv)
+            k = len(teams)
+            if k in pool and rng.random() < 0.5:
+                sel, vals = pool[k]  # the same outcome as an earlier call of this sequence (a reused constant)
+            else:
+                lv = gen.weak_order(rng, k)
+                sel, vals, _ = gen.outcome_kwargs(rng, lv)
+                pool[k] = (sel, vals)
             call = {}
             if rng.random() < 0.5:
                 call["tau"] = rng.choice([0, 0.0, 1e-3 * cfg["beta"], cfg["beta"], 10 * cfg["beta"]])
@@ -144,10 +151,16 @@ def _numbers(op, res):
     return [x for pair in res for x in (float(pair[0]), pair[1])]
 
 
-def run_op(model, op, idmode=None, tag="", watch_globals=False):
+def run_op(model, op, idmode=None, tag="", watch_globals=False, consts=None):
+    """consts: a per-sequence pool of outcome lists that the caller REUSES between calls (an application's
+    `AWAY_WIN = [2, 1]` constant): the same list object is passed whenever the same outcome occurs again"""
     teams = _mk_teams(model, op, idmode, tag)
     if op["op"] == "rate":
-        o = observe(model, "rate", teams, watch_globals=watch_globals, **_kw(op))
+        kw = _kw(op)
+        if consts is not None and op.get("sel"):
+            key = (op["sel"], repr(op["vals"]))
+            kw[op["sel"]] = consts.setdefault(key, kw[op["sel"]])
+        o = observe(model, "rate", teams, watch_globals=watch_globals, **kw)
     else:
         o = observe(model, op["op"], teams, watch_globals=watch_globals)
     nums = None
@@ -178,8 +191,9 @@ def probe_seq(ctx, payload):
     model = league.make_model(model_name, cfg, Ms)
     kind = KIND[model_name]
     prev_call = None
+    consts = {}
     for pos, op in enumerate(ops):
-        o, nums = run_op(model, op, payload["idmode"], tag=f"s{pos}-", watch_globals=(pos % 4 == 0))
+        o, nums = run_op(model, op, payload["idmode"], tag=f"s{pos}-", watch_globals=(pos % 4 == 0), consts=consts)
         reg = f"{op['op']}/{payload['idmode']}"
         if o.exc is not None:
             ctx.ev("no-return")
